@@ -133,6 +133,14 @@ def oracle(ctx, seeds=None):
             cfg['bc'] = {'left': inl, 'right': outl, 'top': tb, 'bottom': dict(tb)}
             if M == 0.0:
                 cfg['bc'] = {t: {'type': 'sym'} for t in ('left', 'right', 'top', 'bottom')}
+        if i % 4 == 3:   # oblique supersonic stream: matching insup (with its angle) on two inflow sides, outsup on the others
+            M = float(rng.choice([1.3, 1.8, 2.5])); c = np.sqrt(g * p / r)
+            deg = float(rng.choice([30.0, -20.0, 45.0, 60.0, -37.5, 10.0, 135.0, 200.0, rng.uniform(0, 360)])); th = np.deg2rad(deg)
+            f_ = 1 + .5 * (g - 1) * M * M
+            inl = {'type': 'insup', 'ptot': p * f_ ** (g / (g - 1)), 'rttot': p / r * f_, 'p': p, 'angle': deg}
+            outl = {'type': 'outsup'}
+            cfg['bc'] = {'left': dict(inl) if np.cos(th) >= 0 else dict(outl), 'right': dict(outl) if np.cos(th) >= 0 else dict(inl),
+                         'bottom': dict(inl) if np.sin(th) >= 0 else dict(outl), 'top': dict(outl) if np.sin(th) >= 0 else dict(inl)}
         cfg['prim'] = [[r] * n, [M * c * np.cos(th)] * n, [M * c * np.sin(th)] * n, [p] * n]
         ok, b = impl.guarded(cfg2d.build2d, cfg)
         if not ok:
